@@ -43,6 +43,8 @@ C11Params ==
     \cup UNION { { <<"cat", s[1], s[2], t[2], 0, 0>> : t \in {u \in SeqIds : u[1] = s[1]} } : s \in SeqIds }
     \cup UNION { { <<"iasg", "list", n, i, 0, 0>> : i \in Ixs(n) }
                  \cup { <<"rasg", "list", n, a, b, m>> : a \in Bnds(n), b \in Bnds(n), m \in 0 .. n + 1 }
+                 \* the right-hand side is the target list itself (m = 0) or an alias of it (m = 1)
+                 \cup { <<"rasga", "list", n, a, b, m>> : a \in Bnds(n), b \in Bnds(n), m \in 0 .. 1 }
                  \cup { <<"rasgs", "list", n, a, b, m>> : a \in {0, 1, OM}, b \in {n - 1, n, OM},
                                                           m \in 1 .. Len(StrPool) }
                : n \in 0 .. MaxLen }
@@ -87,6 +89,9 @@ C11ProgOf(p) ==
                             SAssign(ERIndex(EVar(Xs), Bnd(p[4]), Bnd(p[5])),
                                     EList([i \in 1 .. p[6] |-> EInt(70 + i)])),
                             SPrint(EVar(Xs))>>
+      [] p[1] = "rasga" -> <<SDecl(EVar(Xs), s), SDecl(EVar(Ys), EVar(Xs)),
+                             SAssign(ERIndex(EVar(Xs), Bnd(p[4]), Bnd(p[5])), IF p[6] = 0 THEN EVar(Xs) ELSE EVar(Ys)),
+                             SPrint(EVar(Xs))>>
       [] p[1] = "rasgs" -> <<SDecl(EVar(Xs), s),
                              SAssign(ERIndex(EVar(Xs), Bnd(p[4]), Bnd(p[5])), EStr(StrPool[p[6]])),
                              SPrint(EVar(Xs))>>
@@ -132,10 +137,15 @@ RangeAssignDomain ==
         ((status.k = "done") <=>
             /\ pi[4] \in (0 .. SLen) \cup {OM} /\ pi[5] \in (0 .. SLen) \cup {OM}
             /\ Lo(pi[4]) < Hi(pi[5], SLen) /\ pi[6] = Hi(pi[5], SLen) - Lo(pi[4]))
+RangeAssignAliasDomain ==
+    (Finished /\ Fam = "rasga") =>
+        ((status.k = "done") <=>
+            /\ pi[4] \in (0 .. SLen) \cup {OM} /\ pi[5] \in (0 .. SLen) \cup {OM}
+            /\ Lo(pi[4]) < Hi(pi[5], SLen) /\ SLen = Hi(pi[5], SLen) - Lo(pi[4]))
 RangeAssignKind == (Finished /\ Fam = "rasgk") => status.k = "failed"
 \* any violation of a domain is a *reported* error, with a position
 OutOfDomainIsError == (status.k = "failed") => Located(status.diag)
 
 C11Laws == /\ IndexDomain /\ RangeDomain /\ RangeLaw /\ SplitJoin /\ ConcatLaw
-           /\ IndexAssignDomain /\ RangeAssignDomain /\ RangeAssignKind /\ OutOfDomainIsError
+           /\ IndexAssignDomain /\ RangeAssignDomain /\ RangeAssignAliasDomain /\ RangeAssignKind /\ OutOfDomainIsError
 =============================================================================
